@@ -50,7 +50,7 @@ theorem findOrAddI_totE (m : Mgr) (hI : Inv m) (i : Int) : TotE m (findOrAdd i (
 
 /-- `find_or_add(name, -1, 1)` with an undeclared NAME in place of the level: the request, then
 a `TypeError` -/
-theorem findOrAddNonInt_totE_dyn (m : Mgr) (hI : Inv m) : TotE m (findOrAddNonInt m) := by
+theorem findOrAddNonInt_totE (m : Mgr) (hI : Inv m) : TotE m (findOrAddNonInt m) := by
   unfold findOrAddNonInt
   by_cases hc : m.ctx = true
   · rw [if_pos hc]
@@ -67,7 +67,7 @@ theorem findOrAddNonInt_totE_dyn (m : Mgr) (hI : Inv m) : TotE m (findOrAddNonIn
 /-! ### `_image` -/
 
 /-- `_image` on ARBITRARY arguments, inside the decorator's context -/
-theorem imageF_totE_dyn (umap vmap : Option (List (Int × Int))) (ubad vbad : List Int)
+theorem imageF_totE (umap vmap : Option (List (Int × Int))) (ubad vbad : List Int)
     (Q : List Nat) (fa : Bool) :
     ∀ (f : Nat) (u v : Int) (cache : HashMap (Int × Int) Int) (m : Mgr), Inv m → m.ctx = true →
       TotE m (imageF umap vmap ubad vbad Q fa f u v cache m) := by
@@ -138,7 +138,7 @@ theorem imageF_totE_dyn (umap vmap : Option (List (Int × Int))) (ubad vbad : Li
           · have tg : TotE m2 (if ubad.contains z then findOrAddNonInt m2
                 else findOrAdd (mapLvl umap z) (-1) 1 m2) := by
               split
-              · exact findOrAddNonInt_totE_dyn m2 hI2
+              · exact findOrAddNonInt_totE m2 hI2
               · exact findOrAddI_totE m2 hI2 _
             generalize (if ubad.contains z then findOrAddNonInt m2
                 else findOrAdd (mapLvl umap z) (-1) 1 m2) = resg at tg ⊢
@@ -164,7 +164,7 @@ theorem imageF_totE_dyn (umap vmap : Option (List (Int × Int))) (ubad vbad : Li
         | ok r => exact TotE.ok (s12.trans t3.1) _
 
 /-- the body `_image_of` for ANY arguments -/
-theorem imageBody_totE_dyn (t s : Int) (rn : List (Key × Key)) (q : List Key) (fa : Bool)
+theorem imageBody_totE (t s : Int) (rn : List (Key × Key)) (q : List Key) (fa : Bool)
     (m : Mgr) (hI : Inv m) (hc : m.ctx = true) : TotE m (imageBody t s rn q fa m) := by
   have base : ∀ (r : Except Err Int), r ≠ .error .needsReordering →
       TotE m ((r, m) : Except Err Int × Mgr) := fun r hr => TotE.same hI r hr
@@ -190,7 +190,7 @@ theorem imageBody_totE_dyn (t s : Int) (rn : List (Key × Key)) (q : List Key) (
       · next e heq => exact base _ (fun h => supportLevels_noNR _ _ (by rw [heq]; simpa using h))
       split
       · exact base _ (by simp)
-      have tt := imageF_totE_dyn (some (intPairs (resolveRename m1.tbl rn))) none
+      have tt := imageF_totE (some (intPairs (resolveRename m1.tbl rn))) none
         (badKeys (resolveRename m1.tbl rn)) [] lv fa (2 * m1.nvars + 4) t s {} m1 hI hc
       generalize imageF (some (intPairs (resolveRename m1.tbl rn))) none
         (badKeys (resolveRename m1.tbl rn)) [] lv fa (2 * m1.nvars + 4) t s {} m1 = res at tt ⊢
@@ -202,7 +202,7 @@ theorem imageBody_totE_dyn (t s : Int) (rn : List (Key × Key)) (q : List Key) (
 /-! ### the fallback of `_preimage_of` -/
 
 /-- `_copy_bdd` as `_preimage_of` calls it: ANY node, ANY level map, any memo -/
-theorem copyBddK_totE_dyn (lm : List (Nat × Key)) :
+theorem copyBddK_totE (lm : List (Nat × Key)) :
     ∀ (fu : Nat) (u : Int) (cache : HashMap Nat Int) (m : Mgr), Inv m → m.ctx = true →
       TotE m (copyBddK lm fu u cache m) := by
   intro fu
@@ -285,14 +285,14 @@ theorem copyBddK_totE_dyn (lm : List (Nat × Key)) :
               · exact TotE.err s4 _ (by simp)
               · exact TotE.ok s4 _
         cases jnew with
-        | name nm => exact fin _ (findOrAddNonInt_totE_dyn m2 hI2)
+        | name nm => exact fin _ (findOrAddNonInt_totE m2 hI2)
         | lvl i => exact fin _ (findOrAddI_totE m2 hI2 i)
 
 /-- rename the target, conjoin, quantify: ANY arguments -/
-theorem preimageFallback_totE_dyn (t s : Int) (rn : List (Key × Key)) (q : List Nat) (fa : Bool)
+theorem preimageFallback_totE (t s : Int) (rn : List (Key × Key)) (q : List Nat) (fa : Bool)
     (m : Mgr) (hI : Inv m) (hc : m.ctx = true) : TotE m (preimageFallback t s rn q fa m) := by
   unfold preimageFallback
-  have t1 := copyBddK_totE_dyn (preimageLevelMap m.nvars rn) (m.nvars + 2) s {} m hI hc
+  have t1 := copyBddK_totE (preimageLevelMap m.nvars rn) (m.nvars + 2) s {} m hI hc
   generalize copyBddK (preimageLevelMap m.nvars rn) (m.nvars + 2) s {} m = res1 at t1 ⊢
   obtain ⟨r1, m1⟩ := res1
   cases r1 with
@@ -314,7 +314,7 @@ theorem preimageFallback_totE_dyn (t s : Int) (rn : List (Key × Key)) (q : List
       exact (quantify_nested_totE m2 s2.inv hc2 r2 _ fa).trans s2
 
 /-- the body `_preimage_of` for ANY arguments: the fused traversal or the fallback -/
-theorem preimageBody_totE_dyn (t s : Int) (rn : List (Key × Key)) (q : List Key) (fa : Bool)
+theorem preimageBody_totE (t s : Int) (rn : List (Key × Key)) (q : List Key) (fa : Bool)
     (m : Mgr) (hI : Inv m) (hc : m.ctx = true) : TotE m (preimageBody t s rn q fa m) := by
   have base : ∀ (r : Except Err Int), r ≠ .error .needsReordering →
       TotE m ((r, m) : Except Err Int × Mgr) := fun r hr => TotE.same hI r hr
@@ -349,7 +349,7 @@ theorem preimageBody_totE_dyn (t s : Int) (rn : List (Key × Key)) (q : List Key
           exact supportLevels_noNR _ _ hs
         · cases heq
       split
-      · have tt := imageF_totE_dyn none (some (intPairs (resolveRename m1.tbl rn))) []
+      · have tt := imageF_totE none (some (intPairs (resolveRename m1.tbl rn))) []
           (badKeys (resolveRename m1.tbl rn)) lv fa (2 * m1.nvars + 4) t s {} m1 hI hc
         generalize imageF none (some (intPairs (resolveRename m1.tbl rn))) []
           (badKeys (resolveRename m1.tbl rn)) lv fa (2 * m1.nvars + 4) t s {} m1 = res at tt ⊢
@@ -362,7 +362,7 @@ theorem preimageBody_totE_dyn (t s : Int) (rn : List (Key × Key)) (q : List Key
           · simp [hf] at he
           · simpa [hf] using he
         | ok rc => simp only; exact TotE.ok tt.1 _
-      · exact preimageFallback_totE_dyn t s _ lv fa m1 hI hc
+      · exact preimageFallback_totE t s _ lv fa m1 hI hc
 
 /-! ### the public functions -/
 
@@ -383,7 +383,7 @@ theorem image_total_dyn (ext : Nat → Nat) (m : Mgr) (hD : DynInvS ext m)
     exact DynTotalK.same hD _ (fun h => qvarsByName_noNR m.tbl q (by rw [hq]; simpa using h))
   | ok qn =>
     exact tryToReorder_total_dynK ext _
-      (fun m0 hI hc _ => imageBody_totE_dyn t s _ qn fa m0 hI hc) m hD
+      (fun m0 hI hc _ => imageBody_totE t s _ qn fa m0 hI hc) m hD
 
 /-- `preimage(trans, target, rename, qvars, bdd, forall)`, ARBITRARY arguments -/
 theorem preimage_total_dyn (ext : Nat → Nat) (m : Mgr) (hD : DynInvS ext m)
@@ -395,7 +395,7 @@ theorem preimage_total_dyn (ext : Nat → Nat) (m : Mgr) (hD : DynInvS ext m)
     exact DynTotalK.same hD _ (fun h => qvarsByName_noNR m.tbl q (by rw [hq]; simpa using h))
   | ok qn =>
     exact tryToReorder_total_dynK ext _
-      (fun m0 hI hc _ => preimageBody_totE_dyn t s _ qn fa m0 hI hc) m hD
+      (fun m0 hI hc _ => preimageBody_totE t s _ qn fa m0 hI hc) m hD
 
 /-! ### lifted to `dd.autoref` -/
 
